@@ -1,7 +1,405 @@
 package c13
 
-import "verifsim/simcore"
+import (
+	"bytes"
+	"context"
+	"errors"
+	"fmt"
+	"sort"
+	"strings"
+	"time"
+
+	"github.com/anishathalye/porcupine"
+	"go.brendoncarroll.net/p2p"
+	"go.brendoncarroll.net/p2p/s/swarmutil"
+	"go.brendoncarroll.net/p2p/zsimrt"
+
+	"verifsim/simcore"
+)
+
+// ---- sequential reference model of the bounded queue ------------------------
+
+type qIn struct {
+	Kind string // deliver | take | recverr | release | closesignal | closedone
+	ID   int
+	Len  int
+	// Overlap is the number of other Deliver calls concurrent with this one: each
+	// of them may hold a slot it has taken from the freelist but not yet queued,
+	// so a refusal is legal when those could account for the missing room.
+	Overlap int
+}
+type qOut struct {
+	OK   bool
+	ID   int
+	Kind string // recverr: ctx | closed
+}
+
+type qState struct {
+	q       string // comma separated ids
+	held    int
+	closing bool // Close has signalled: operations may refuse
+	closed  bool // Close has returned: everything refuses, queue is empty
+}
+
+func queueModel(capacity, mtu int) porcupine.Model {
+	return porcupine.Model{
+		Init: func() interface{} { return qState{} },
+		Step: func(state, input, output interface{}) (bool, interface{}) {
+			s := state.(qState)
+			in := input.(qIn)
+			out := output.(qOut)
+			var ids []string
+			if s.q != "" {
+				ids = strings.Split(s.q, ",")
+			}
+			switch in.Kind {
+			case "deliver":
+				accept := in.Len <= mtu && !s.closed && len(ids)+s.held < capacity
+				if s.closing && !s.closed && !out.OK {
+					// while Close is in progress a refusal is always legal
+					return true, s
+				}
+				if !out.OK && in.Len <= mtu && !s.closed && len(ids)+s.held+in.Overlap >= capacity {
+					return true, s
+				}
+				if out.OK != accept {
+					return false, s
+				}
+				if accept {
+					ids = append(ids, fmt.Sprint(in.ID))
+					s.q = strings.Join(ids, ",")
+				}
+				return true, s
+			case "take":
+				// open queue: strictly the head. While Close is draining, Close itself
+				// pulls from the same head, so any prefix may already be gone.
+				idx := -1
+				for i, x := range ids {
+					if x == fmt.Sprint(out.ID) {
+						idx = i
+						break
+					}
+				}
+				if idx < 0 || (idx > 0 && !s.closing) {
+					return false, s
+				}
+				s.q = strings.Join(ids[idx+1:], ",")
+				s.held++
+				return true, s
+			case "recverr":
+				if out.Kind == "closed" && !s.closing {
+					return false, s
+				}
+				if out.Kind == "other" {
+					return false, s
+				}
+				return true, s
+			case "release":
+				if s.held == 0 {
+					return false, s
+				}
+				s.held--
+				return true, s
+			case "closesignal":
+				s.closing = true
+				return true, s
+			case "closedone":
+				// Close returns only after every slot is back: nothing is held, and
+				// whatever was still queued is dropped
+				if !s.closing || s.held != 0 {
+					return false, s
+				}
+				s.closed = true
+				s.q = ""
+				return true, s
+			}
+			return false, s
+		},
+		Equal: func(a, b interface{}) bool { return a.(qState) == b.(qState) },
+		DescribeOperation: func(input, output interface{}) string {
+			return fmt.Sprintf("%+v -> %+v", input, output)
+		},
+	}
+}
 
 func runQueue(st *simcore.Stream, tier string, logOn bool, res *simcore.Result) {
-	panic("queue leg not built yet")
+	sim := zsimrt.New(st)
+	sim.LogOn = logOn
+	sim.StopWhenIdle = true
+	sim.MaxSteps = 6000
+
+	capacity := 1 + st.Intn(4)
+	mtu := 8 + st.Intn(24)
+	nProd := 1 + st.Intn(3)
+	nRecv := 1 + st.Intn(3)
+	perProd := 1 + st.Intn(4)
+	perRecv := 1 + st.Intn(4)
+	doClose := st.Bool(1, 3)
+	// Queue.Purge is not part of the workload: it is outside the statement and
+	// unused in the repository (it can block forever when it races a Receive).
+	purge := false
+	cancelNum := st.Intn(3)
+	res.Cfg = map[string]any{"cap": capacity, "mtu": mtu, "prod": nProd, "recv": nRecv, "perProd": perProd, "perRecv": perRecv, "close": doClose, "purge": purge, "cancel": cancelNum}
+
+	q := swarmutil.NewQueue[Addr](capacity, mtu)
+	payloads := map[int][]byte{}
+	var hist []porcupine.Operation
+	client := 0
+	accepted := map[int]bool{}
+	received := map[int]int{}
+	purged := 0
+	closeBeg, closedAt := -1, -1
+	type rop struct {
+		call, ret, cancelAt int
+		err                 error
+		cbs                 int
+	}
+	var rops []*rop
+
+	sim.Run(func() {
+		id := 0
+		for p := 0; p < nProd; p++ {
+			var ids []int
+			for j := 0; j < perProd; j++ {
+				n := st.Intn(mtu + 3)
+				if n < 2 {
+					n = 2
+				}
+				b := make([]byte, n)
+				st.Bytes(b)
+				b[0], b[1] = byte(id>>8), byte(id)
+				payloads[id] = b
+				ids = append(ids, id)
+				id++
+			}
+			client++
+			cl := client
+			useVec := st.Bool(1, 2)
+			zsimrt.Go("prod", func() {
+				for _, id := range ids {
+					pl := payloads[id]
+					buf := append([]byte{}, pl...)
+					src, dst := Addr{N: id % 7}, Addr{N: 100 + id%5}
+					zsimrt.Yield("harness/before-deliver")
+					call := sim.Step
+					var ok bool
+					if useVec && len(pl) <= mtu {
+						cut := len(buf) / 2
+						ok = q.DeliverVec(src, dst, p2p.IOVec{buf[:cut], buf[cut:]})
+					} else {
+						ok = q.Deliver(p2p.Message[Addr]{Src: src, Dst: dst, Payload: buf})
+					}
+					ret := sim.Step
+					// sender may reuse its buffer as soon as Deliver returns
+					for i := range buf {
+						buf[i] = 0xEE
+					}
+					if ok {
+						accepted[id] = true
+					}
+					hist = append(hist, porcupine.Operation{ClientId: cl, Input: qIn{Kind: "deliver", ID: id, Len: len(pl)}, Call: int64(call), Output: qOut{OK: ok}, Return: int64(ret)})
+					zsimrt.Yield("harness/after-deliver")
+				}
+			})
+		}
+		for r := 0; r < nRecv; r++ {
+			client++
+			cl := client
+			zsimrt.Go("recv", func() {
+				for j := 0; j < perRecv; j++ {
+					o := &rop{ret: -1, cancelAt: -1}
+					ctx := context.Background()
+					if cancelNum > 0 && st.Bool(cancelNum, 4) {
+						c, cf := context.WithCancel(ctx)
+						delay := st.Intn(8)
+						zsimrt.Go("cancel", func() {
+							for i := 0; i < delay; i++ {
+								zsimrt.Yield("harness/cancel-wait")
+							}
+							o.cancelAt = sim.Step
+							res.Fault("cancel")
+							cf()
+						})
+						ctx = c
+					}
+					rops = append(rops, o)
+					zsimrt.Yield("harness/before-receive")
+					o.call = sim.Step
+					cbEnd := -1
+					o.err = q.Receive(ctx, func(m p2p.Message[Addr]) {
+						o.cbs++
+						cbStart := sim.Step
+						mid := -1
+						if len(m.Payload) >= 2 {
+							mid = int(m.Payload[0])<<8 | int(m.Payload[1])
+						}
+						received[mid]++
+						res.Checks++
+						if want, ok := payloads[mid]; !ok || !bytes.Equal(want, m.Payload) {
+							res.Violate(sim.Step, "payload-mismatch", "queue callback saw %x, ledger has %x (id %d)", m.Payload, want, mid)
+						}
+						if m.Src.N != mid%7 || m.Dst.N != 100+mid%5 {
+							res.Violate(sim.Step, "addr-mismatch", "queue callback saw src=%v dst=%v for id %d", m.Src, m.Dst, mid)
+						}
+						hist = append(hist, porcupine.Operation{ClientId: cl, Input: qIn{Kind: "take"}, Call: int64(o.call), Output: qOut{ID: mid}, Return: int64(cbStart)})
+						snap := append([]byte{}, m.Payload...)
+						for i, k := 0, st.Intn(4); i < k; i++ {
+							zsimrt.Yield("harness/in-callback")
+						}
+						if !bytes.Equal(snap, m.Payload) {
+							res.Violate(sim.Step, "buffer-changed-in-callback", "payload changed while the callback was running (id %d)", mid)
+						}
+						cbEnd = sim.Step
+					})
+					o.ret = sim.Step
+					if o.err == nil {
+						if cbEnd >= 0 {
+							hist = append(hist, porcupine.Operation{ClientId: cl, Input: qIn{Kind: "release"}, Call: int64(cbEnd), Output: qOut{}, Return: int64(o.ret)})
+						}
+					} else {
+						kind := "other"
+						if errors.Is(o.err, context.Canceled) {
+							kind = "ctx"
+						} else if errors.Is(o.err, p2p.ErrClosed) {
+							kind = "closed"
+						}
+						hist = append(hist, porcupine.Operation{ClientId: cl, Input: qIn{Kind: "recverr"}, Call: int64(o.call), Output: qOut{Kind: kind}, Return: int64(o.ret)})
+					}
+					zsimrt.Yield("harness/after-receive")
+				}
+			})
+		}
+		if purge {
+			delay := st.Intn(20)
+			zsimrt.Go("purger", func() {
+				for i := 0; i < delay; i++ {
+					zsimrt.Yield("harness/purge-wait")
+				}
+				res.Fault("purge")
+				purged += q.Purge()
+			})
+		}
+		if doClose {
+			delay := st.Intn(25)
+			client++
+			cl := client
+			zsimrt.Go("closer", func() {
+				for i := 0; i < delay; i++ {
+					zsimrt.Yield("harness/close-wait")
+				}
+				closeBeg = sim.Step
+				res.Fault("close")
+				q.Close()
+				closedAt = sim.Step
+				hist = append(hist, porcupine.Operation{ClientId: cl, Input: qIn{Kind: "closesignal"}, Call: int64(closeBeg), Output: qOut{}, Return: int64(closedAt)})
+				hist = append(hist, porcupine.Operation{ClientId: cl, Input: qIn{Kind: "closedone"}, Call: int64(closeBeg), Output: qOut{}, Return: int64(closedAt)})
+			})
+		}
+	})
+	end := sim.Step
+	fillStats(res, sim)
+	if sim.Stats.HitStepCap {
+		res.Violate(end, "no-quiescence", "step cap hit: the queue workload did not quiesce")
+		return
+	}
+	// ---- conservation and uniqueness ----
+	nrecv := 0
+	for id, n := range received {
+		nrecv += n
+		res.Checks++
+		if n > 1 {
+			res.Violate(end, "delivered-twice", "queue message %d was received %d times", id, n)
+		}
+		if !accepted[id] {
+			res.Violate(end, "received-but-not-accepted", "queue message %d was received but Deliver never returned true for it", id)
+		}
+	}
+	if closedAt < 0 && closeBeg < 0 {
+		left := q.Len()
+		res.Checks++
+		if len(accepted) != nrecv+purged+left {
+			res.Violate(end, "conservation", "accepted=%d != received=%d + purged=%d + queued=%d", len(accepted), nrecv, purged, left)
+		}
+	}
+	// ---- blocked receivers ----
+	for _, o := range rops {
+		if o.ret >= 0 || o.call == 0 {
+			if o.ret >= 0 && o.err != nil {
+				res.Checks++
+				switch {
+				case errors.Is(o.err, context.Canceled):
+					if !(o.cancelAt >= 0 && o.cancelAt <= o.ret) {
+						res.Violate(end, "receive-wrong-error", "queue receive returned a context error although its context was not cancelled")
+					}
+				case errors.Is(o.err, p2p.ErrClosed):
+					if !(closeBeg >= 0 && closeBeg <= o.ret) {
+						res.Violate(end, "receive-wrong-error", "queue receive returned ErrClosed although Close had not been called")
+					}
+				default:
+					res.Violate(end, "receive-wrong-error", "queue receive returned unexpected error %v", o.err)
+				}
+				if o.cbs != 0 {
+					res.Violate(end, "receive-error-with-callback", "queue receive returned %v after running its callback", o.err)
+				}
+			}
+			if o.ret >= 0 && o.err == nil && o.cbs != 1 {
+				res.Violate(end, "receive-nil-callbacks", "queue receive returned nil but its callback ran %d times", o.cbs)
+			}
+			continue
+		}
+		switch {
+		case o.cancelAt >= 0:
+			res.Violate(end, "cancel-not-prompt", "queue receive still blocked at quiescence although its context was cancelled at step %d", o.cancelAt).With("op", "queue-receive")
+		case closedAt >= 0:
+			res.Violate(end, "blocked-after-close", "queue receive still blocked at quiescence although Close returned at step %d", closedAt).With("op", "queue-receive")
+		case closeBeg < 0 && !purge && q.Len() > 0:
+			res.Violate(end, "lost-wakeup", "queue receive blocked at quiescence while %d messages are queued", q.Len())
+		}
+	}
+	if closeBeg >= 0 && closedAt < 0 {
+		// Close blocks until every slot is back; at quiescence every callback has
+		// finished, so it must have returned
+		res.Violate(end, "close-stuck", "Queue.Close called at step %d never returned", closeBeg)
+	}
+	// ---- linearizability against the bounded FIFO ----
+	if !purge && len(hist) > 0 && len(hist) <= 60 {
+		sort.SliceStable(hist, func(i, j int) bool { return hist[i].Call < hist[j].Call })
+		for i := range hist {
+			in, ok := hist[i].Input.(qIn)
+			if !ok || in.Kind != "deliver" {
+				continue
+			}
+			for j := range hist {
+				if jn, ok := hist[j].Input.(qIn); ok && j != i && jn.Kind == "deliver" && hist[j].Call <= hist[i].Return && hist[i].Call <= hist[j].Return {
+					in.Overlap++
+				}
+			}
+			hist[i].Input = in
+		}
+		r := porcupine.CheckOperationsTimeout(queueModel(capacity, mtu), hist, 5*time.Second)
+		res.Checks++
+		switch r {
+		case porcupine.Illegal:
+			var lines []string
+			for _, h := range hist {
+				lines = append(lines, fmt.Sprintf("c%d [%d,%d] %+v -> %+v", h.ClientId, h.Call, h.Return, h.Input, h.Output))
+			}
+			res.Violate(end, "not-linearizable", "queue history is not linearizable against a bounded FIFO (cap %d, mtu %d)", capacity, mtu).With("history", lines)
+		case porcupine.Unknown:
+			res.Probe("porcupine-unknown")
+		default:
+			res.Probe("porcupine-ok")
+		}
+	}
+	res.ProbeN("queue-accepted", len(accepted))
+	res.ProbeN("queue-received", nrecv)
+	res.Nontrivial = nrecv > 0 && sim.Stats.MultiRunnable > 0
+	var sample []string
+	for _, h := range hist {
+		sample = append(sample, fmt.Sprintf("c%d [%d,%d] %+v -> %+v", h.ClientId, h.Call, h.Return, h.Input, h.Output))
+	}
+	if len(sample) > 14 {
+		sample = sample[:14]
+	}
+	res.Sample = sample
 }
